@@ -205,6 +205,18 @@ func VerifyFunction(p *Program, name string, opt Options) FnReport {
 		}
 		rep.Results = append(rep.Results, r)
 	}
+	for _, dt := range p.Spec.Deterministic {
+		if dt[1] != name {
+			continue
+		}
+		bad := p.DeterministicScan(dt[0])
+		r := OblResult{Oblig: Oblig{Fn: name, Name: fc.Name + "/scan.deterministic." + dt[0], Kind: "scan.deterministic", Where: dt[0], Text: "package " + dt[0] + " has no source of run-to-run variation: no map iteration, select, goroutine, clock, randomness or environment read"}, Status: "proved", Raw: "scan", Solver: "ssa-scan"}
+		if len(bad) > 0 {
+			r.Status = "failed"
+			r.Output = strings.Join(bad, "; ")
+		}
+		rep.Results = append(rep.Results, r)
+	}
 	for _, oa := range p.Spec.OverridesAll {
 		if oa[2] != name {
 			continue
